@@ -866,9 +866,13 @@ impl<E: Effect> Executor<E> {
     }
 
     pub fn mark_active(&mut self, id: ProcessId) {
-        let was_spawning = self.spawning.remove(&id);
-        let was_selecting = self.selecting.remove(&id);
-        if was_spawning || was_selecting {
+        // Only a process parked in a select is woken by an (empty) await answer. The answer can be
+        // stale: if the awaited process lives on this worker and finished in the meantime, the
+        // select has already completed through the local notification and the process may since
+        // have parked in `spawning`, waiting for its NotifySpawn with its Spawn instruction still
+        // current. Re-queueing it here would execute that Spawn a second time on a stack whose
+        // operands are already consumed.
+        if self.selecting.remove(&id) {
             self.queue.push_back(id);
         }
     }
